@@ -378,8 +378,9 @@ def gen_script(rnd, k):
                 body_lines.append("(assert (rbdef %s))" % w.term(e1))
     elif kind == "redefine-after-pop":
         # a definition made inside a level disappears with the level: the name may be defined again, differently
-        T = g.choice([INT, REAL, BV(2), BOOL])
-        gb = G(cfg=Cfg(max_depth=2, theories={"bool", "int", "real", "bv"}, bv_widths=[1, 2], share=20), rnd=rnd)
+        T = g.choice([REAL, BV(2), BOOL] if w.real_numerals else [INT, REAL, BV(2), BOOL])
+        gb = G(cfg=Cfg(max_depth=2, theories={"bool", "real", "bv"} if w.real_numerals else {"bool", "int", "real", "bv"},
+                       bv_widths=[1, 2], share=20), rnd=rnd)
         a = ("a?", T)
         tags.add("redefinition-after-pop")
         forms = []
